@@ -154,6 +154,8 @@ def check(ctx, rep):
     build_fragments_bindings(ctx, rep, 'C05b')
     from . import C04
     C04.shortcut_rule(ctx, rep, 'peptacular.fragmentation:_get_mass_components', 'C05b')
+    C04.builder_subsets(ctx, rep, 'C05a')
+    C04.projections(ctx, rep, 'C05b')
     add_checks(rep, rt.derived_table_checks(program), 'C05c', 'peptacular.chem.chem_constants')
     add_checks(rep, rt.sibling_table_checks(t), 'C05c')
     from .common import memo_rule
